@@ -26,6 +26,9 @@ for cid in [pid] + extra_checks:
     t = time.time()
     rc, out = sh("VERIF_REPO=%s ./check %s" % (wt, cid), cwd='/verif')
     res['checks'][cid] = {'rc': rc, 'wall_s': round(time.time() - t), 'output': out[-2500:]}
+import hashlib
+# the scratch copy of lean/ and harness/ (several GB of build output) is only needed while the checks run
+subprocess.run('rm -rf /var/tmp/verif-work/' + hashlib.sha1(os.path.abspath(wt).encode()).hexdigest()[:10], shell=True)
 dst = os.path.join('/verif/seeded', name)
 shutil.rmtree(dst, ignore_errors=True)
 shutil.copytree(os.path.join(wt, 'SEED'), dst)
